@@ -206,6 +206,70 @@ class ValueGen:
         return d[1]
 
 
+def satisfies(t, v, u, mod=None):
+    """does the value respect the schema constraints carried by its type (a value *of* the type)"""
+    import dataclasses
+    k = t[0]
+    if k == "con":
+        c = t[1]
+        if isinstance(v, (int, float)) and not isinstance(v, bool):
+            if c.get("min") is not None and v < c["min"]: return False
+            if c.get("max") is not None and v > c["max"]: return False
+            if c.get("exc_min") is not None and v <= c["exc_min"]: return False
+            if c.get("exc_max") is not None and v >= c["exc_max"]: return False
+            if c.get("mult_of") is not None and v % c["mult_of"] != 0: return False
+        if isinstance(v, str):
+            if c.get("min_len") is not None and len(v) < c["min_len"]: return False
+            if c.get("max_len") is not None and len(v) > c["max_len"]: return False
+            if c.get("pattern") is not None and not v.startswith(c["pattern"]): return False
+        if isinstance(v, (list, tuple, set, frozenset)):
+            if c.get("min_items") is not None and len(v) < c["min_items"]: return False
+            if c.get("max_items") is not None and len(v) > c["max_items"]: return False
+            if c.get("unique"):
+                items = list(v)
+                if any(x == y for i, x in enumerate(items) for y in items[i + 1:]): return False
+        if isinstance(v, dict) or dataclasses.is_dataclass(v):
+            n = len(v) if isinstance(v, dict) else len(dataclasses.fields(v))
+            if c.get("min_props") is not None or c.get("max_props") is not None:
+                return False          # property counts depend on the omission rules: not generated
+        return satisfies(t[2], v, u)
+    if k == "coll":
+        return isinstance(v, (list, tuple, set, frozenset)) and all(satisfies(t[2], x, u) for x in v)
+    if k == "tuple":
+        return isinstance(v, tuple) and len(v) == len(t[1]) and all(satisfies(a, x, u) for a, x in zip(t[1], v))
+    if k == "map":
+        return isinstance(v, dict) and all(satisfies(t[1], kk, u) and satisfies(t[2], x, u) for kk, x in v.items())
+    if k == "union":
+        return any(satisfies(a, v, u) for a in t[1])
+    if k in ("int", "float"):
+        return isinstance(v, (int, float)) and not isinstance(v, bool)
+    if k == "str":
+        return isinstance(v, str)
+    if k == "bool":
+        return isinstance(v, bool)
+    if k == "none":
+        return v is None
+    if k == "obj":
+        if not (isinstance(v, dict) or dataclasses.is_dataclass(v) or isinstance(v, tuple)):
+            return False
+        c = u["classes"][t[1]]
+        for f in c["fields"]:
+            if isinstance(v, dict):
+                if f["name"] not in v:
+                    continue
+                x = v[f["name"]]
+            else:
+                x = getattr(v, f["name"])
+            from apischema import Undefined
+            if x is Undefined or (x is None and (f.get("none_undef") or not f["required"])):
+                continue
+            ft = ("con", f["con"], f["ty"]) if f.get("con") else f["ty"]
+            if not satisfies(ft, x, u):
+                return False
+        return True
+    return True
+
+
 def in_fragment(v):
     """floats must be quarter multiples"""
     import dataclasses
